@@ -257,8 +257,16 @@ def gen_build(rng, tier):
                                 "[13 %d]" % hib(rng), "[12 %s]" % vlib.hx(rtail(rng, rng.choice([240, 250, 253, 255]))),
                                 "[9 %d]" % rng.randrange(0, 2 * HI), "[2 1]", "[5 1]"])
             steps.insert(rng.randrange(len(steps) + 1), extra)
-        out.append(Case(sp(BUILD + " %d [%s]" % (fl, " ".join(steps))), kind=kind, decides=consistent,
-                        nontrivial=consistent and len(steps) > 0, theorem="C12_build_encode_decode" if consistent else "fidelity"))
+        line = sp(BUILD + " %d [%s]" % (fl, " ".join(steps)))
+        if consistent and any(s.startswith("[9 ") for s in steps):
+            # SetEBPTime: the property fixes the instant only to within 1 ns, so the exact TimeFraction is not decided by it:
+            # one deciding case judged by the property itself (oracle), one fidelity case comparing everything
+            out.append(Case(line, kind="build-consistent-time", decides=True, nontrivial=True, theorem="C12_build_encode_decode",
+                            note="oracle-build"))
+            out.append(Case(line, kind="build-time-fields", decides=False, nontrivial=False, theorem="fidelity"))
+        else:
+            out.append(Case(line, kind=kind, decides=consistent, nontrivial=consistent and len(steps) > 0,
+                            theorem="C12_build_encode_decode" if consistent else "fidelity"))
     return out
 
 
@@ -337,6 +345,26 @@ def oracle(c, real, model):
         if abs(got - t) > 1:
             return "EBPTime(SetEBPTime(t)) - t = %d ns (required: at most 1 ns)" % (got - t)
         return ""
+    if c.kind == "build-consistent-time":
+        # built through SetEBPTime: judged by the property (encode/decode agree, length byte, instant within 1 ns)
+        if real == model:
+            return ""
+        try:
+            before, data, after, dec = vlib.parse_val(real)
+            steps = vlib.parse_val(c.line[c.line.index("[") :])
+            t = [s[1] for s in steps if s[0] == 9][-1]
+            if dec[0] != 0:
+                return "the bytes of the built EBP do not decode: " + real[:200]
+            dobs, ddata, ddfl, unchanged = dec[1]
+            if dobs != after:
+                return "decoding the encoded EBP does not give back the values of the built object"
+            if ddata != data or len(data) < 2 or data[1] != len(data) - 2:
+                return "re-encoding differs or the length byte is not the number of bytes that follow"
+            if abs(after[17] - t) > 1 or abs(before[17] - t) > 1:
+                return "EBPTime after SetEBPTime(t) is %d ns away (required: at most 1 ns)" % (after[17] - t)
+            return ""
+        except Exception as e:
+            return "unreadable observation: " + real[:200]
     if not c.decides and c.note.startswith("alt:") and c.note[4:] != model:
         # the two reader variants differ on this input
         if real == model:
@@ -359,6 +387,8 @@ def case_of_line(line, kind):
         if LO <= t < HI:
             return Case(line, kind="time-in-range", theorem="C12_time_roundtrip")
         return Case(line, kind="time-out-of-range", decides=False, theorem="fidelity")
+    if op in ("ebp.build", "ebp.buildg") and kind == "build-consistent-time":
+        return Case(line, kind=kind, theorem="C12_build_encode_decode", note="oracle-build")
     return Case(line, kind=kind or "replay")
 
 
